@@ -300,6 +300,7 @@ fn handle_item(
                     .get(scope.clone(), args, pos, file_context)
                     .map_err(|e| e.called_from(pos, name))?;
                 mixin.define_content(&scope, body.as_ref());
+                let loaded = mixin.loaded;
                 handle_parsed(mixin.body, dest, mixin.scope, file_context)
                     .map_err(|e: Error| match e {
                         Error::Invalid(err, _) => err.at(pos.clone()),
@@ -311,6 +312,9 @@ fn handle_item(
                             Error::BadCall(e.to_string(), pos, None)
                         }
                     })?;
+                if let Some(loaded) = loaded {
+                    file_context.unlock_loading(&loaded);
+                }
             } else {
                 return Err(Error::BadCall(
                     "Undefined mixin.".into(),
